@@ -385,8 +385,13 @@ def nj_lens(shape, variant):
     return lens_from_pattern(shape, lambda i, leaf: (0.0 if i % 3 == 0 else 0.75) if leaf else [0.5, 1.25, 2.0][i % 3])
 
 
-def _via_csv(pdm, ns):
+def _via_csv(pdm, ns, relabel=False):
     out = io.StringIO()
+    if relabel:
+        # labels written in another form and turned back on the way in (both functions take a label_transform_fn): same taxa, same table
+        pdm.write_csv(out, is_normalize_by_tree_size=False, label_transform_fn=lambda l: "<%s>" % l)
+        return PhylogeneticDistanceMatrix.from_csv(io.StringIO(out.getvalue()), taxon_namespace=ns, is_allow_new_taxa=False,
+                                                   label_transform_fn=lambda l: l[1:-1] if l.startswith("<") and l.endswith(">") else l)
     pdm.write_csv(out, is_normalize_by_tree_size=False)
     return PhylogeneticDistanceMatrix.from_csv(io.StringIO(out.getvalue()), taxon_namespace=ns, is_allow_new_taxa=False)
 
@@ -407,8 +412,8 @@ def eval_recon(item):
     try:
         with limit(30):
             pdm = src.phylogenetic_distance_matrix()
-            if route == "csv":
-                pdm = _via_csv(pdm, src.taxon_namespace)
+            if route in ("csv", "csv-relabelled"):
+                pdm = _via_csv(pdm, src.taxon_namespace, relabel=(route == "csv-relabelled"))
             fn = pdm.nj_tree if method == "nj" else pdm.upgma_tree
             res = fn(is_weighted_edge_distances=(route != "counts"))
     except Timeout:
@@ -655,6 +660,8 @@ def t2(ctx):
                             if route == "csv" and (variant == 2 or n >= 6):
                                 continue
                             items.append({"spec": spec, "method": "nj", "route": route})
+                            if route == "csv" and variant == 0 and n <= 4:
+                                items.append({"spec": spec, "method": "nj", "route": "csv-relabelled"})
     for item, (key, n, fails) in zip(items, pmap(_w_recon, items, chunksize=16)):
         ctx.case(sc, key, nontrivial=n >= 4)
         for mon, detail in fails:
@@ -662,7 +669,7 @@ def t2(ctx):
 
     sc = "upgma@ultrametric"
     ctx.scope(sc, rule="shapes with 2..%d leaves x 3 assignments of dyadic node heights (+ one with every two-leaf cherry at height 0, from 3 leaves) x {identity, reversed labelling} x route in {matrix "
-                       "of the tree, CSV round trip, edge-count matrix (shapes with all leaves at one depth)}; non-trivial = >= 4 leaves"
+                       "of the tree, CSV round trip (up to 4 leaves also with labels rewritten on the way out and back by label_transform_fn), edge-count matrix (shapes with all leaves at one depth)}; non-trivial = >= 4 leaves"
                        "; from 6 leaves identity labelling and no CSV route; 7 leaves: every third shape" % (6 if quick else 7), exhaustive=True)
     items = []
     for n in range(2, (6 if quick else 7) + 1):
@@ -683,6 +690,8 @@ def t2(ctx):
                         if route == "csv" and n >= 6:
                             continue
                         items.append({"spec": spec, "method": "upgma", "route": route})
+                        if route == "csv" and variant == 0 and n <= 4:
+                            items.append({"spec": spec, "method": "upgma", "route": "csv-relabelled"})
     for item, (key, n, fails) in zip(items, pmap(_w_recon, items, chunksize=16)):
         ctx.case(sc, key, nontrivial=n >= 4)
         for mon, detail in fails:
